@@ -362,8 +362,14 @@ func genDlCfg(t *rapid.T) dlCfg {
 	return c
 }
 
-func TestC33(t *testing.T) {
-	st := pbt.NewStats("TestC33")
+func TestC33(t *testing.T) { testC33(t, "TestC33") }
+
+// TestC33Parallel: the same property with several Ps (the driver sets
+// GOMAXPROCS=4): the download workers really overlap. Time is the bubble's.
+func TestC33Parallel(t *testing.T) { testC33(t, "TestC33Parallel") }
+
+func testC33(t *testing.T, name string) {
+	st := pbt.NewStats(name)
 	defer st.Flush()
 	rapid.Check(t, func(t *rapid.T) {
 		rapid.SyncTest(t, func(t *rapid.T) {
